@@ -85,10 +85,20 @@ Init == /\ InitInput
 
 AnnVal(p) == IF ann[p] THEN "A" ELSE "E"      \* the value of the annotation record of p (annotated / empty)
 
-Start(a, p) ==
+Ready(a, p) ==
   /\ <<a, p>> \in Needed /\ st[<<a, p>>] = "idle"
   /\ \A b \in Requires(a) : st[<<b, p>>] = "done"
   /\ a \in FactAnalyzers => \A q \in Imports(p) : st[<<a, q>>] = "done"
+
+\* a fixed total order of the actions, used to pick one canonical (sequential) schedule in the "progs" mode
+Rank(a, p) == (CASE p = "d" -> 0 [] p = "u" -> 10 [] p = "w" -> 20)
+              + (CASE a = "config" -> 0 [] a = "annot" -> 1 [] a = "ign" -> 2 [] a = "impl" -> 3 [] a = "imm" -> 4
+                   [] a = "ctor" -> 5 [] a = "tonl" -> 6 [] a = "pkgo" -> 7)
+
+Start(a, p) ==
+  /\ Ready(a, p)
+  /\ Mode = "progs" => /\ \A k \in Analyzers \X Pkgs : st[k] # "running"
+                       /\ \A b \in Analyzers, q \in Pkgs : Ready(b, q) => Rank(a, p) <= Rank(b, q)
   /\ st' = [st EXCEPT ![<<a, p>>] = "running"]
   /\ hist' = Append(hist, <<"S", a, p>>)
   /\ UNCHANGED <<ann, uses, named, cfgCache, resAnn, facts, diags, reads>>
